@@ -119,6 +119,8 @@ def build_ops(K, rng, slot=0, vid_base=0, noise=0.0, permute=True):
             rng.shuffle(arches)
         o = {"op": "var_new", "vid": vid_base + v["n"], "id": v["id"], "uid": v["uid"], "name": v["name"], "type": v["type"],
              "arches": arches}
+        if rng.random() < 0.3:
+            o["arches_inplace"] = True
         o.update(sl)
         if v["release"]:
             o["release"] = dict(v["release"])
